@@ -228,6 +228,25 @@ def udpRecv (v : Verifier) (reqId : Nat) :
       | .err => .ok none
       | .panic m => .panic m
 
+/-- `UdpRequest::send` for a request that is NOT signed (`should_sign_message` is false, or no
+signer is configured): the first datagram that passes the id and question checks is returned as
+it is. -/
+def udpRecvPlain (reqId : Nat) : Nat → List (Bytes × Bool × Bool × Bool) → Bool
+  | 0, _ => false
+  | _, [] => false
+  | k + 1, (buf, _, parseOK, qok) :: rest =>
+    if parseOK = false then false
+    else if rd16 buf 0 ≠ some reqId then udpRecvPlain reqId k rest
+    else if qok = false then udpRecvPlain reqId k rest
+    else true
+
+/-- `DnsMultiplexer::poll_next` for a request without verifier: a decodable response with the
+request's id is delivered `Ok` -/
+def muxStepPlain (reqId : Nat) (buf : Bytes) (parseOK : Bool) : Delivery :=
+  if parseOK = false then .dropped
+  else if rd16 buf 0 ≠ some reqId then .dropped
+  else .ok
+
 /-- a history of received messages on one request id -/
 def muxRun (v : Verifier) (reqId : Nat) :
     List (Bytes × Bool × Bool) → Outcome (Verifier × List Delivery)
@@ -332,6 +351,10 @@ structure ZoneCfg where
   `SqliteZoneHandler`: no TSIG processing at all — `zone_transfer` admits an AXFR iff its policy is
   `AllowAll`, `update` is the trait default (`NotImp`) -/
   inMemory : Bool := false
+  /-- `ZoneType` of the handler: 0 Primary, 1 Secondary, 2 External.  `Catalog::update` applies an
+  UPDATE only to a Primary zone (Secondary ⇒ NOTIMP "forwarding not yet implemented", anything else
+  ⇒ NOTAUTH), without consulting the handler; transfers and queries do not look at it. -/
+  zoneType : Nat := 0
 
 /-- result of an authorisation: `rcode = 0` is `Ok(())` -/
 structure Auth where
@@ -362,9 +385,12 @@ def authorizedTsig (cfg : ZoneCfg) (tsig : SigRec) (buf : Bytes) (now : Nat) (rd
     | .err => .ok { rcode := NOTAUTH, resp := some (.badSig sg) }
     | .panic m => .panic m
 
-/-- `SqliteZoneHandler::authorize_update(request, now)` -/
+/-- `SqliteZoneHandler::authorize_update(request, now)`, preceded by the zone-type gate of
+`Catalog::update` (which answers for a non-Primary zone without calling the handler) -/
 def authorizeUpdate (cfg : ZoneCfg) (req : Req) (buf : Bytes) (now : Nat) (rdok : Bool) :
     Outcome Auth :=
+  if cfg.zoneType = 1 then .ok { rcode := NOTIMP, resp := none } else
+  if cfg.zoneType ≠ 0 then .ok { rcode := NOTAUTH, resp := none } else
   if cfg.inMemory then .ok { rcode := NOTIMP, resp := none } else
   if cfg.allowUpdate = false then .ok { rcode := REFUSED, resp := none } else
   match req.sig with
@@ -433,7 +459,27 @@ def serve (cfg : ZoneCfg) (buf : Bytes) (now : Nat) (rdok : Bool) : Outcome (Opt
       | .err => .err
       | .panic m => .panic m
 
+/-- What the catalog finally sends.  Every TSIG the server attaches carries `time = now`; a clock of
+2⁴⁸ s or more does not fit the 48-bit field: `TSIG::emit` fails ("invalid time, overflow 48 bit
+counter"), `signer.sign` / the encoding of the signed reply fails, and the catalog answers SERVFAIL,
+unsigned, without records — for an UPDATE *after* `update_records` has run (the zone keeps the
+change), for an AXFR instead of the zone data. -/
+def SERVFAIL : Nat := 2
+
+def respond (now : Nat) (d : Decision) : Decision :=
+  if d.resp.isSome ∧ now ≥ 281474976710656 then
+    { d with rcode := SERVFAIL, resp := none,
+             effect := (if d.kind = .axfr then false else d.effect) }
+  else d
+
 /-! ### decidable class of the recorded finding -/
+
+/-- `C13.ClockBeyond48Bits`: the server clock does not fit the 48-bit time of a TSIG; `respond`
+then turns every reply that should carry a TSIG into an unsigned SERVFAIL — after an accepted
+update has been applied. -/
+def ClockBeyond48Bits (now : Nat) : Prop := now ≥ 281474976710656
+instance (now : Nat) : Decidable (ClockBeyond48Bits now) := by
+  unfold ClockBeyond48Bits; exact inferInstance
 
 /-- `C13.ReplyTruncatedAfterSigning`: the reply is MAC'ed over its unlimited encoding
 (`unsignedLen` octets) but sent under the transport's size limit; with the TSIG RR it does not
